@@ -788,7 +788,7 @@ Definition h_insert_match (e : ed) (fwd regex : bool) : res ed :=
     let cb := utf8_encode sl in
     let cline := if sp <? zlen sl then firstn (Z.to_nat sp) cb else cb in
     match match_go (S (S (length (hist e)))) (hist e) start fwd regex cline with
-    | None => if fwd then h_undo (set_hist e (-1) (hcpos e)) else Ok e
+    | None => if fwd then Ok (h_restore_line e) else Ok e     (* restoreLineBuffer: back on the line being entered *)
     | Some (m, pos) =>
       let e := set_line (set_hist e (n - pos) (hcpos e)) m in
       Ok (if preserve then c_set e sp else c_set e (llen e))
